@@ -2494,7 +2494,9 @@ def default_save_handler(
   else:
     raise ValueError(f'Unsupported `file_format`: {file_format!r}.')
 
-  pg_io.mkdirs(os.path.dirname(path), exist_ok=True)
+  # NOTE: a bare file name has no directory to create.
+  if os.path.dirname(path):
+    pg_io.mkdirs(os.path.dirname(path), exist_ok=True)
   pg_io.writefile(path, content)
 
 
